@@ -58,6 +58,10 @@ def findLight (n : Net) (i : Id) : Option Elem := n.lights.find? (fun s => s.1 =
 /-- `network.find_intersection_by_id(i)`. -/
 def findInter (n : Net) (i : Id) : Option Intersection := n.inters.find? (fun s => s.id == i)
 
+/-- The id of the object `network.find_*_by_id(i)` returns when `i` is the id of an element of that network (the loops of
+`remove_hanging_lanelet_members` look up the very elements they iterate over): lists of such objects are carried as id lists. -/
+def idOfFound (_ : Net) (i : Id) : Id := i
+
 /-- `self._id_set.remove(i)` on a scenario: `KeyError` when absent (= `Scn.idsRemove`). -/
 def idSetRemove (s : Scn) (i : Id) : Scn × Option Err := s.idsRemove i
 
